@@ -199,6 +199,22 @@ Proof.
     destruct (depart_sub _ _ _ _) as [st1 ns]. cbn [fst] in *. rewrite <- Hk. eapply Hg; [apply gone_of_gone_sess|exact Hd].
 Qed.
 
+(* ... and so does the departure of an RTMP session *)
+Lemma egone_rtmp : forall fx cf st n kd s a,
+  vsess st n = Some (kd, s, a, false) -> (kd = KRtmpPub \/ kd = KRtmpSub) ->
+  vsess (fst (fst (step fx cf st (EGone n)))) n = Some (kd, s, a, true).
+Proof.
+  intros fx cf st n kd s a Hv Hk. destruct (vsess_found _ _ _ Hv) as [x [Hx Hc]]. unfold core in Hc. inversion Hc; subst.
+  cbn [step]. rewrite Hx, H3. cbn [fst].
+  assert (Hg : forall st0 st', gone_of st st0 n -> st_sess st' = st_sess st0 -> vsess st' n = Some (s_kind x, s_stream x, s_acc x, true)).
+  { intros st0 st' [_ [_ G]] E. unfold vsess at 1. rewrite E. fold (vsess st0 n). rewrite G, N.eqb_refl, Hv. reflexivity. }
+  destruct Hk as [Hk|Hk]; rewrite Hk; cbn [fst].
+  - pose proof (depart_pub_sess (gone_sess st n) PsRtmp (s_stream x) n true) as Hd.
+    destruct (depart_pub _ _ _ _ _) as [st1 ns]. cbn [fst] in *. rewrite <- Hk. eapply Hg; [apply gone_of_gone_sess|exact Hd].
+  - pose proof (depart_sub_sess (gone_sess st n) SkRtmp (s_stream x) n) as Hd.
+    destruct (depart_sub _ _ _ _) as [st1 ns]. cbn [fst] in *. rewrite <- Hk. eapply Hg; [apply gone_of_gone_sess|exact Hd].
+Qed.
+
 (* the first command of a connection: accepted iff the session is admitted *)
 Lemma rtsp_pub_step : forall fx cf st s n d, fresh st n = true ->
   let '(st1, r, _) := step fx cf st (ERtspPub s n d) in
@@ -271,7 +287,7 @@ Proof.
   assert (Hnil : exists es, run fx cf (cs_base cs) es = (cs_base cs, [])) by (exists []; reflexivity).
   assert (Hclose : forall c cs', cs_base (fst (let '(st1, ns) := close_conn fx cf (cs_base cs) c in (mk_cstate st1 cs', ns))) = fst (close_conn fx cf (cs_base cs) c)).
   { intros. destruct (close_conn fx cf (cs_base cs) c). reflexivity. }
-  destruct ce as [e|s c n d|s c n d]; cbn [cstep].
+  destruct ce as [e|s c n d|s c n d|s n pb]; cbn [cstep].
   - destruct (arrival_id e) as [n|] eqn:Ea.
     + destruct (reserved cs n); [exact Hnil|].
       destruct (step_sim1 fx cf (cs_base cs) e) as [es Hes]. exists es. rewrite Hes.
@@ -322,6 +338,12 @@ Proof.
       * exists [ERtspSub s n d]. exact H1.
       * match goal with |- context[close_conn fx cf st1 ?kk] => destruct (close_conn_sim fx cf st1 kk) as [es Hes]; destruct (close_conn fx cf st1 kk) as [st2 ns2] end.
         exists ([ERtspSub s n d] ++ es). rewrite run_app, H1. cbn [fst snd]. rewrite Hes. reflexivity.
+  - (* CRtmpCmd *)
+    destruct (find_sess n (st_sess (cs_base cs))) as [x|]; [|exact Hnil].
+    destruct (s_kind x); try exact Hnil;
+      (destruct (negb (s_acc x) || s_gone x || s_closed x); [exact Hnil|];
+       destruct (step_sim1 fx cf (cs_base cs) (EGone n)) as [es Hes]; exists es; rewrite Hes;
+       destruct (step fx cf (cs_base cs) (EGone n)) as [[st1 r] ns]; reflexivity).
 Qed.
 
 (* whatever the RTSP connections do, the state and the notification log are those of a history of
@@ -590,7 +612,7 @@ Proof.
   intros cf cs ce H.
   assert (Hopen_field : forall k, In k (cs_conns cs) -> cn_open k = true -> is_some (cn_pub k) || is_some (cn_sub k) = true).
   { intros k Hk Ho. destruct (sh_open _ H k Hk Ho) as [n [kd [s [_ [_ [[_ [P _]]|[_ [_ S]]]]]]]]; [rewrite P|rewrite S]; simpl; [reflexivity|apply orb_true_r]. }
-  destruct ce as [e|s c n d|s c n d]; cbn [cstep].
+  destruct ce as [e|s c n d|s c n d|s n pb]; cbn [cstep].
   - destruct (arrival_id e) as [n|] eqn:Ea.
     + destruct (reserved cs n) eqn:Er; [exact H|]. apply reserved_false in Er.
       destruct (fresh (cs_base cs) n) eqn:Hf.
@@ -660,6 +682,22 @@ Proof.
     { intros x [<-|[]]. split; [assumption|apply fresh_of_vsess; assumption]. }
     pose proof (inv_close cf cs c k [n] H Eg Eo (NoDup_cons n (@in_nil N n) (NoDup_nil _)) Hex) as Hc.
     destruct (close_conn fixed_tree cf (cs_base cs) k) as [st1 ns]. cbn [fst] in *. exact Hc.
+  - (* CRtmpCmd: an admitted live RTMP session belongs to no RTSP connection *)
+    destruct (find_sess n (st_sess (cs_base cs))) as [x|] eqn:Ef; [|exact H].
+    assert (Hn : s_acc x = true -> s_gone x = false -> (s_kind x = KRtmpPub \/ s_kind x = KRtmpSub) -> ~ In n (all_members (cs_conns cs))).
+    { intros Ha Hg Hk Hin. apply in_all_members in Hin. destruct Hin as [c [Hc Hm]].
+      assert (Vn : vsess (cs_base cs) n = Some (s_kind x, s_stream x, true, false)).
+      { rewrite (vsess_find _ _ _ Ef). unfold core. rewrite Ha, Hg. reflexivity. }
+      destruct (cn_open c) eqn:Eo.
+      - destruct (sh_open _ H c Hc Eo) as [n1 [kd [s1 [M [V1 F]]]]]. rewrite M in Hm. destruct Hm as [<-|[]].
+        rewrite V1 in Vn. inversion Vn. destruct F as [[-> _]|[-> _]]; destruct Hk; congruence.
+      - exact (sh_closed _ H c Hc Eo n _ _ Hm Vn). }
+    destruct (s_kind x) eqn:Ek; try exact H;
+      (destruct (negb (s_acc x) || s_gone x || s_closed x) eqn:Eg; [exact H|];
+       apply orb_false_iff in Eg; destruct Eg as [Eg _]; apply orb_false_iff in Eg; destruct Eg as [Ea Eg]; apply negb_false_iff in Ea;
+       pose proof (inv_base_step fixed_tree cf cs (EGone n) H) as Hb;
+       destruct (step fixed_tree cf (cs_base cs) (EGone n)) as [[st1 r] ns]; cbn [fst] in *; apply Hb;
+       [intros p Hp; inversion Hp; subst p; apply Hn; auto | intros n1 Hn1; discriminate Hn1]).
 Qed.
 
 Theorem shell_inv_run : forall cf h cs, SHELL_INV cs -> SHELL_INV (fst (crun true fixed_tree cf cs h)).
@@ -734,4 +772,60 @@ Theorem shell_stat_attached : forall fsh cf h s g,
 Proof.
   intros fsh cf h s g st Hg. destruct (shell_history fsh cf h) as [es He].
   pose proof (stat_lists_attached cf es s g) as Hs. cbv zeta in Hs. rewrite He in Hs. exact (Hs Hg).
+Qed.
+
+(* ---- a further publish / play command on an RTMP connection ------------------------------------------- *)
+(* The command is refused, and its effect is exactly the departure of the session from the stream it
+   was admitted to: the stream [s] and the kind [pb] of the refused command play no part.  With
+   [shell_stat_attached] / [shell_notifications]: the session is listed nowhere afterwards and its
+   stop has been notified. *)
+Theorem rtmp_cmd_departs : forall fsh fx cf cs s pb n x,
+  find_sess n (st_sess (cs_base cs)) = Some x -> (s_kind x = KRtmpPub \/ s_kind x = KRtmpSub) ->
+  s_acc x = true -> s_gone x = false -> s_closed x = false ->
+  let '(cs1, r, ns) := cstep fsh fx cf cs (CRtmpCmd s n pb) in
+  r = RRef /\
+  cs_base cs1 = fst (fst (step fx cf (cs_base cs) (EGone n))) /\ ns = snd (step fx cf (cs_base cs) (EGone n)) /\
+  cs_conns cs1 = cs_conns cs /\
+  vsess (cs_base cs1) n = Some (s_kind x, s_stream x, true, true).
+Proof.
+  intros fsh fx cf cs s pb n x Hx Hk Ha Hg Hc. cbn [cstep]. rewrite Hx.
+  assert (Hv : vsess (cs_base cs) n = Some (s_kind x, s_stream x, true, false)).
+  { rewrite (vsess_find _ _ _ Hx). unfold core. rewrite Ha, Hg. reflexivity. }
+  pose proof (egone_rtmp fx cf (cs_base cs) n _ _ _ Hv Hk) as He.
+  destruct Hk as [Hk|Hk]; rewrite Hk in *; rewrite Ha, Hg, Hc; cbn [negb orb];
+    destruct (step fx cf (cs_base cs) (EGone n)) as [[st1 r] ns]; cbn [fst snd cs_base cs_conns] in *; repeat split; exact He.
+Qed.
+
+Lemma crun_app : forall fsh fx cf h1 h2 cs,
+  crun fsh fx cf cs (h1 ++ h2) =
+  (fst (crun fsh fx cf (fst (crun fsh fx cf cs h1)) h2),
+   snd (crun fsh fx cf cs h1) ++ snd (crun fsh fx cf (fst (crun fsh fx cf cs h1)) h2)).
+Proof.
+  intros fsh fx cf h1. induction h1 as [|e t IH]; intros h2 cs; simpl.
+  - destruct (crun fsh fx cf cs h2); reflexivity.
+  - destruct (cstep fsh fx cf cs e) as [[cs1 r] ns]. rewrite IH.
+    destruct (crun fsh fx cf cs1 t) as [a b]. simpl. destruct (crun fsh fx cf a h2) as [c d]. simpl. rewrite app_assoc. reflexivity.
+Qed.
+
+(* after any history, a further publish / play command on the connection of an admitted live RTMP
+   session - naming any stream - leaves that session listed by no stream's stat and, by
+   [shell_notifications], with its stop notified *)
+Theorem rtmp_cmd_unlisted : forall fsh cf h s pb n x,
+  let cs := fst (crun fsh fixed_tree cf init_cstate h) in
+  find_sess n (st_sess (cs_base cs)) = Some x -> (s_kind x = KRtmpPub \/ s_kind x = KRtmpSub) ->
+  s_acc x = true -> s_gone x = false -> s_closed x = false ->
+  let cs1 := fst (crun fsh fixed_tree cf init_cstate (h ++ [CRtmpCmd s n pb])) in
+  vsess (cs_base cs1) n = Some (s_kind x, s_stream x, true, true) /\
+  forall s' g, get_group (cs_base cs1) s' = Some g -> stat_pub g <> Some n /\ ~ In n (stat_subs g).
+Proof.
+  intros fsh cf h s pb n x cs Hx Hk Ha Hg Hc cs1.
+  assert (Hv : vsess (cs_base cs1) n = Some (s_kind x, s_stream x, true, true)).
+  { unfold cs1. rewrite crun_app. cbn [fst crun]. fold cs.
+    pose proof (rtmp_cmd_departs fsh fixed_tree cf cs s pb n x Hx Hk Ha Hg Hc) as H.
+    destruct (cstep fsh fixed_tree cf cs (CRtmpCmd s n pb)) as [[c1 r] ns]. cbn [fst]. destruct H as [_ [_ [_ [_ H]]]]. exact H. }
+  split; [exact Hv|]. intros s' g Hgr.
+  pose proof (shell_stat_attached fsh cf (h ++ [CRtmpCmd s n pb]) s' g) as Hs. cbv zeta in Hs. fold cs1 in Hs.
+  destruct (Hs Hgr) as [Hp Hsub]. split.
+  - intros E. destruct (Hp n E) as [kd [V _]]. rewrite Hv in V. discriminate V.
+  - intros E. destruct (Hsub n E) as [kd [k [_ [_ V]]]]. rewrite Hv in V. discriminate V.
 Qed.
